@@ -84,7 +84,7 @@ func workerMain() {
 				stuck = 0
 				continue
 			}
-			p := atomic.LoadInt64(&core.Progress)
+			p := core.ReadProgress()
 			if p == last {
 				stuck++
 			} else {
